@@ -84,7 +84,12 @@ func Disturb(k int) {
 		quiet(func() { _ = enum.New("@e", `[1, "a`).Check() })
 		quiet(func() { _, _ = enum.New("@e", `[1] /*00`).Len() })
 		quiet(func() { _ = regex.New("@r", `/a(/`).Check() })
-		quiet(func() { d := jdoc.New("d", `{"a": [1, tru`); _, _ = d.NextLexeme(); _, _ = d.NextLexeme(); _ = d.Check() })
+		quiet(func() {
+			d := jdoc.New("d", `{"a": [1, tru`)
+			_, _ = d.NextLexeme()
+			_, _ = d.NextLexeme()
+			_ = d.Check()
+		})
 	case 7: // a valid project with every kind of reference, checked, exemplified, converted
 		quiet(func() {
 			b := Build(Project{Root: "{ // {allOf: \"@base\"}\n  \"a\": @s | @n,\n  @s: 1, // {or: [{type: \"integer\", min: 0}, {type: \"@s\"}]}\n  \"e\": \"x\" // {enum: @e}\n}",
